@@ -79,10 +79,10 @@ import typeguard
 LOG = []
 def A(fn, *a, **k):
     LOG.append(("A", getattr(fn, "__module__", None), getattr(fn, "__qualname__", None)))
-    return typeguard.typechecked(fn)
+    return typeguard.typechecked(fn, always=True)  # (always: typeguard switches itself off under python -O)
 def B(fn, *a, **k):
     LOG.append(("B", getattr(fn, "__module__", None), getattr(fn, "__qualname__", None)))
-    return typeguard.typechecked(fn)
+    return typeguard.typechecked(fn, always=True)
 '''
 
 
